@@ -20,6 +20,9 @@ func genConcCase(rng *simrt.Rng, o *ConcOpts) *ConcCase {
 	if o.Ticker && cfg.withExpiry() && rng.Intn(2) == 0 {
 		cfg.Ticker = true
 	}
+	if o.Profile.Prop == "C06" && rng.Intn(6) == 0 {
+		cfg.HandlerPanicEvery = 1 + rng.Intn(3) // a handler that panics (under executors that contain it)
+	}
 	if o.HotKeys[1] > 0 {
 		cfg.Keys = o.HotKeys[0] + rng.Intn(o.HotKeys[1]-o.HotKeys[0]+1)
 	}
